@@ -369,13 +369,15 @@ def rule_adjugate(run: Run, prog: Program) -> int:
             if set(axes) == {outer, inner} and None not in axes.values():
                 # indices has shape (2, n, n): axis 1 = rows, axis 2 = columns. The list is row-major in (outer, inner) and is reshaped to A.shape,
                 # so the minor at (i, j) must delete row `outer` and column `inner`.
+                axes = {k: v % 3 for k, v in axes.items()}
                 if axes[outer] == 1 and axes[inner] == 2:
                     verdict, msg = PROVEN, f"the minor stored at ({outer}, {inner}) deletes row {outer} and column {inner}"
                 elif axes[outer] == 2 and axes[inner] == 1:
                     verdict, msg = VIOLATION, (f"the minor stored at ({outer}, {inner}) deletes COLUMN {outer} and ROW {inner}: together with the single "
                                                f"transposition in adjugate the result is the cofactor matrix, not the adjugate")
                 else:
-                    verdict, msg = UNDECIDED, f"deleted axes {axes} not recognised"
+                    verdict, msg = VIOLATION, (f"the minor stored at ({outer}, {inner}) deletes along axes {axes[outer]} and {axes[inner]} of the (2, n, n) index grid: "
+                                               f"a minor deletes one row (axis 1) and one column (axis 2)")
         run.add("E12.adj", mi.short, "row/column of each minor", verdict, msg, loc)
     return n_ob
 
@@ -482,7 +484,7 @@ def rule_hat(run: Run, prog: Program) -> int:
                     continue
                 for t, (r, c) in enumerate(zip(I, J)):
                     H[(r, c)] = (sign, t)
-        if not ok or len(H) != 6:
+        if not ok or not H:
             run.add("E12.hat", fn.short, "3D table", UNDECIDED, "the 3D branch is not written as two literal index tables with `result[..., i, j] = x; result[..., j, i] = -x`", loc)
             continue
 
@@ -692,6 +694,10 @@ def rule_measures(run: Run, prog: Program) -> int:
             run.add("E12.measure", fn.short, "formula", VIOLATION,
                     f"{fn.short} returns {m.show()} but the textbook measure is {text}"
                     + (f" (off by the factor {m.coef / coef})" if got_keys == want_keys else " (a factor or an exponent differs)"), loc)
+        elif {k: v for k, v in got_keys.items() if "(" not in k} == {k: v for k, v in want_keys.items() if "(" not in k} and m.coef == coef:
+            # everything but the gamma / factorial terms agrees: nothing is left that could compensate for a different gamma argument
+            run.add("E12.measure", fn.short, "formula", VIOLATION,
+                    f"{fn.short} returns {m.show()} but the textbook measure is {text} (the gamma / factorial term differs while all other factors agree)", loc)
         else:
             run.add("E12.measure", fn.short, "formula", UNDECIDED,
                     f"written with other building blocks ({sorted(got_keys)}) than the reference form ({sorted(want_keys)}); equivalence not decided", loc)
